@@ -10,16 +10,20 @@
 EXTENDS Naturals, Integers, Sequences, FiniteSets, TLC, Json, IOUtils
 
 Rec == ndJsonDeserialize(IOEnv.TRACE)
-VARIABLES l, scn, svcname, accepted, pend, bad
-tvars == <<l, scn, svcname, accepted, pend, bad>>
+VARIABLES l, scn, svcname, accepted, pend, bad, bad16
+tvars == <<l, scn, svcname, accepted, pend, bad, bad16>>
 NoPend == [stage |-> "none", m |-> "", args |-> "", dl |-> 0, ret |-> ""]
-TInit == l = 1 /\ scn = 0 /\ svcname = "" /\ accepted = TRUE /\ pend = NoPend /\ bad = {}
+TInit == l = 1 /\ scn = 0 /\ svcname = "" /\ accepted = TRUE /\ pend = NoPend /\ bad = {} /\ bad16 = {}
 
 Step ==
   /\ l <= Len(Rec)
   /\ l' = l + 1
   /\ LET e == Rec[l] IN
      /\ scn' = e.scn
+     \* C16: a peer answering with a well-formed response of another rpc's type must not crash the calling task
+     /\ bad16' = IF e.ev = "Reset" THEN {}
+                 ELSE IF e.ev = "WrongVariant" /\ e.panicked
+                   THEN bad16 \cup {"the generated client panicked on a well-formed response of another rpc's type"} ELSE bad16
      /\ CASE e.ev = "Reset" -> svcname' = e.svcname /\ accepted' = e.accepted /\ pend' = NoPend /\ bad' = {}
           [] e.ev = "ClientCall" ->
                /\ pend' = [stage |-> "call", m |-> e.m, args |-> e.args, dl |-> e.dl, ret |-> ""]
@@ -50,5 +54,6 @@ Step ==
 TSpec == TInit /\ [][Step]_tvars
 Report(name, ok, why) == ok \/ PrintT(<<"REPORT", name, scn, l - 1, why>>)
 Verdict_C17 == Report("Inv_C17", bad = {}, bad)
+Verdict_C16 == Report("Inv_C16glue", bad16 = {}, bad16)
 Accepted == l = Len(Rec) + 1 => PrintT(<<"ACCEPTED", Len(Rec)>>)
 =============================================================================
